@@ -278,10 +278,15 @@ func H_C06_entry() {
 // c06Pairs: expressions that differ only inside a quoted token or in layout.
 // Evaluating one must not influence the other (no state keyed by a lossy
 // digest of the text).
+const c06Long = "a.b.a.b.a.b.a.b.a.b.a.b.a.b.a.b.a.b.a.b.a.b.a.b.a.b.a.b.a.b.a.b.a.b.a.b.a.b"
+
 var c06Pairs = [][2]string{
 	{"join(' ', a)", "join('  ', a)"}, {"\"a b\"", "\"a  b\""}, {"'x'", "' x'"}, {"a.b", "a .b"}, {"`\"a b\"`", "`\"a  b\"`"}, {"a == 'A'", "a == 'a'"},
 	{"[a,b]", "[a, b]"}, {"'a\tb'", "'a b'"}, {"\"a\\tb\"", "\"a b\""}, {"a||b", "a || b"}, {"length(a)", "length( a )"}, {"a[0]", "a[ 0 ]"}, {"'a' 'b'", "'a''b'"},
 	// the same text padded with characters that are white space to Go but not to the grammar
+	// same bytes in another order, long common prefixes / suffixes, same length and same ends
+	{"a.b", "b.a"}, {"a || b", "b || a"}, {"[a, b]", "[b, a]"}, {"{a: a, b: b}", "{b: a, a: b}"},
+	{c06Long + ".a", c06Long + ".b"}, {"a." + c06Long, "b." + c06Long}, {c06Long + ".a." + c06Long, c06Long + ".b." + c06Long},
 	{"a", "a\u00a0"}, {"a", "\va"}, {"a.b", "a.b\u2028"}, {"a", "a\f"}, {"a", "\u0085 a \u3000"}, {"a", " a "}, {"a", "a\x00"},
 }
 
@@ -306,4 +311,59 @@ func H_C06_history() {
 		want, werr := Search(second, doc)
 		vrtAssert(sameOutcome(got, gerr, want, werr, false), "compiled and one-shot evaluation differ after another expression was used")
 	}
+}
+
+// H_C06_mutated: the caller owns its data and may change it between calls: a
+// compiled expression applied again to the same (now modified) document
+// returns what a fresh evaluation of the modified document returns - nothing
+// is remembered by document identity.
+func H_C06_mutated() {
+	k := vrtChoose("expr", len(c06Exprs))
+	expr := c06Exprs[k]
+	vrtNote("template:" + expr)
+	arr := make([]any, 3, 4)
+	arr[0], arr[1], arr[2] = json.Number("3"), json.Number("1"), json.Number("2")
+	inner := map[string]any{"k": "p", "x": json.Number("1")}
+	doc := map[string]any{"a": arr, "b": map[string]any{"k": "v", "x": json.Number("7")}, "c": []any{inner, map[string]any{"k": "q"}}, "d": []any{[]any{"k", json.Number("1")}}}
+	e, cerr := Compile(expr)
+	if cerr != nil {
+		return
+	}
+	_, _ = e.Search(doc)
+	_, _ = Search(expr, doc)
+	switch vrtChoose("mutation", 6) {
+	case 0:
+		arr[0] = json.Number("0")
+	case 1:
+		doc["a"] = append(arr, json.Number("5"))
+	case 2:
+		doc["a"] = "text"
+	case 3:
+		delete(doc["b"].(map[string]any), "k")
+	case 4:
+		inner["k"] = "z"
+	default:
+		doc["b"] = map[string]any{"n": json.Number("1")}
+		doc["d"] = []any{[]any{"m", "w"}}
+	}
+	got, gerr := e.Search(doc)
+	want, werr := refSearch(expr, doc)
+	un := c06Unordered(expr)
+	if werr == ecUnspecified {
+		return
+	}
+	if werr != ecNone {
+		vrtAssert(gerr != nil && ecOfError(gerr) == werr, "compiled expression on a modified document: wrong outcome")
+		return
+	}
+	vrtAssert(gerr == nil, "compiled expression on a modified document fails")
+	if gerr == nil {
+		if un {
+			vrtAssert(refEqualMS(got, want), "a compiled expression does not see a change the caller made to its document")
+		} else {
+			vrtAssert(refEqual(got, want), "a compiled expression does not see a change the caller made to its document")
+		}
+	}
+	one, oerr := Search(expr, doc)
+	vrtAssert(sameOutcome(got, gerr, one, oerr, un), "one-shot Search does not see a change the caller made to its document")
 }
